@@ -68,6 +68,7 @@ class FnContract:
         # closures: {ordinal: dict(params='p: &mut Parser', requires=[...], ensures=[...])}
         self.closures = closures or {}
         self.prologue = prologue
+        self.tagged_prologue = []   # (ghost text, tags, name): pieces that belong to one property's layer, each on its own line with a marker
         self.attrs = list(attrs)
         self.tags = set(tags.split()) if isinstance(tags, str) else (set(tags) if tags else None)
         self.ret = ret
@@ -438,6 +439,9 @@ class Splicer:
                         lits.append(t)
                 if lits:
                     pro = 'proof { ' + ' '.join('reveal_strlit(%s);' % t for t in lits) + ' } ' + pro
+            for (ptext, ptags, pname) in getattr(fc, 'tagged_prologue', []):
+                pm = self.marker('hint', fnkey, f, 0, set(ptags.split()), Clause(ptext, ptags, name=pname))
+                pro += '\n' + indent + ptext + ' /*@' + pm + '*/'
             if pro and 'external_body' not in fc.attrs and 'external' not in fc.attrs:
                 ins(r['body'][0] + 1, '\n' + indent + pro + '\n', {'rule': 'R8'})
                 self.g.count('R8')
@@ -640,13 +644,19 @@ class Splicer:
             txt = data[b0:b1].decode()
             for bp in fc.body_proofs:
                 rx, text = bp[0], bp[1]
-                after = len(bp) > 2 and bp[2] == 'after'
+                after = 'after' in bp[2:]
                 ms = list(re.finditer(rx, txt))
-                if not ms:
+                if not ms and 'optional' not in bp[2:]:
                     self.lose('proof-hint site %r in %s' % (rx, fnkey), tags)
+                htags = [x[5:] for x in bp[2:] if isinstance(x, str) and x.startswith('tags=')]
                 for mm in ms:
                     at = mm.end() if after else mm.start()
-                    ins(b0 + len(txt[:at].encode()), (' ' + text) if after else (text + ' '), {'rule': 'R8'})
+                    t2 = text
+                    if htags:
+                        # a hint that belongs to one property's layer: own line + marker, so that a failure inside it carries those tags
+                        hm = self.marker('hint', fnkey, f, 0, set(htags[0].split()), Clause(text, htags[0], name='proof hint'))
+                        t2 = '\n' + text + ' /*@' + hm + '*/\n'
+                    ins(b0 + len(txt[:at].encode()), (' ' + t2) if after else (t2 + ' '), {'rule': 'R8'})
                     self.g.count('R8')
             # R14: an expression Verus cannot encode (iterator adapters, ...) is OUTLINED: the matched source text becomes the
             # body of a new #[verifier::external_body] helper (contract assumed, listed), the site becomes a call of it
